@@ -62,6 +62,8 @@ def err_of(e):
         return "Key"
     if isinstance(e, IndexError):
         return "Index"
+    if type(e).__module__.startswith("networkx") and type(e).__name__ in ("NetworkXError", "NodeNotFound"):
+        return "NoNode"
     if type(e) is Exception:
         m = str(e)
         if "Cell not empty" in m:
@@ -288,7 +290,8 @@ class GridImpl:
                 arg = cs[0] if len(cs) == 1 else cs  # a single position may be passed bare (accept_tuple_argument)
                 it = g.get_cell_list_contents(arg)
             else:
-                it = list(g.iter_cell_list_contents(cs))
+                # the iterator form also accepts a bare tuple; passed bare when the coordinate sum is even
+                it = list(g.iter_cell_list_contents(cs[0] if len(cs) == 1 and sum(cs[0]) % 2 == 0 else cs))
             v = [self.idx[a] for a in it]
             return sp(" ".join(map(str, v))), v
         raise AssertionError(f"unknown op {w}")
@@ -763,6 +766,15 @@ def gen_c09_grid(R, tier):
                 if e:
                     x, y = R.choice(e)
                     b.add(f"place {a} {x} {y}")
+    stack = None
+    if multi and nag >= 3 and R.random() < 0.5:
+        # several agents on one cell: queried with and without include_center, from the cell itself and from a neighbour
+        stack = (R.randrange(w), R.randrange(h))
+        for a in R.sample(range(nag), R.randint(2, min(4, nag))):
+            if impl.agents[a].pos is None:
+                b.add(f"place {a} {stack[0]} {stack[1]}")
+            else:
+                b.add(f"move {a} {stack[0]} {stack[1]}")
     keys = []
     for _ in range(R.randint(8, 30)):
         k = R.random()
@@ -775,9 +787,11 @@ def gen_c09_grid(R, tier):
         if keys and R.random() < 0.3:
             pos, moore, ic, r = R.choice(keys)  # a repeated key: answered from the cache
         else:
-            pos = (R.randrange(w), R.randrange(h)) if (hexk or R.random() < 0.93) else any_coord(R, w, h)
+            pos = (R.randrange(w), R.randrange(h)) if R.random() < (0.95 if hexk else 0.93) else any_coord(R, w, h)
+            if stack and R.random() < 0.35:
+                pos = stack if R.random() < 0.5 else (min(w - 1, stack[0] + R.randrange(2)), max(0, stack[1] - R.randrange(2)))
             moore, ic = R.random() < 0.5, R.random() < 0.5
-            r = R.choice(RADII + [w, h, max(w, h) + 1])
+            r = R.choice(RADII + [w, h, max(w, h) + 1, 0])
             if hexk and r > 6:
                 r = 5
             keys.append((pos, moore, ic, r))
@@ -785,6 +799,8 @@ def gen_c09_grid(R, tier):
         if hexk:
             op = R.choice(["hnbhd", "hnbhd", "ihnbhd", "hnbrs", "hnbrs", "ihnbrs"])
             b.add(f"{op} {x} {y} {int(ic)} {r}")
+            if R.random() < 0.03:
+                b.add(f"nmask {x} {y} {int(moore)} {int(ic)} {r}")  # inherited, but calls the hex get_neighborhood with 4 arguments
         else:
             op = R.choice(["nbhd", "nbhd", "inbhd", "nbrs", "nbrs", "inbrs", "nmask"])
             b.add(f"{op} {x} {y} {int(moore)} {int(ic)} {r}")
@@ -819,7 +835,8 @@ def gen_c09_net(R, tier):
             b.add(R.choice(["nagents", f"nisempty {R.randrange(n)}", "ndump"]))
         else:
             r = R.choice([0, 1, 1, 1, 2, 2, 3, 4, n, n + 1])
-            b.add(f"{R.choice(['nnbhd', 'nnbhd', 'nnbrs'])} {R.randrange(n)} {int(R.random() < 0.5)} {r}")
+            v = n + R.randrange(2) if R.random() < 0.04 else R.randrange(n)
+            b.add(f"{R.choice(['nnbhd', 'nnbhd', 'nnbrs'])} {v} {int(R.random() < 0.5)} {r}")
     return b.scenario()
 
 
@@ -1252,7 +1269,9 @@ def oracle_c09(sc, obs):
         for i, e in enumerate(tr):
             op, res, B = e["op"], e["res"], trace_before(tr, i)
             where = f"line {i + 1} ({' '.join(op)})"
-            if op[0] in ("nnbhd", "nnbrs") and res.startswith("ok"):
+            if op[0] in ("nnbhd", "nnbrs") and int(op[1]) < n and not res.startswith("ok"):
+                bad.append(f"net-raise: {where}: gave {res}")
+            elif op[0] in ("nnbhd", "nnbrs") and res.startswith("ok"):
                 v, ic, r = int(op[1]), op[2] == "1", int(op[3])
                 dist = {v: 0}
                 fr = [v]
@@ -1289,6 +1308,8 @@ def oracle_c09(sc, obs):
         k = op[0]
         where = f"line {i + 1} ({' '.join(op)})"
         if k in ("nbhd", "inbhd", "nbrs", "inbrs", "nmask"):
+            if H["hex"]:
+                continue  # get_neighborhood_mask inherited by a hex class: TypeError by construction (tie only)
             pos, moore, ic, r = (int(op[1]), int(op[2])), op[3] == "1", op[4] == "1", int(op[5])
             if not ing(pos):
                 if res != "err OutOfBounds":
@@ -1302,6 +1323,8 @@ def oracle_c09(sc, obs):
                 want.discard(pos)
         elif k in ("hnbhd", "ihnbhd", "hnbrs", "ihnbrs"):
             pos, ic, r = (int(op[1]), int(op[2])), op[3] == "1", int(op[4])
+            if not ing(pos):
+                continue  # outside the quantifier: tie only
             if not res.startswith("ok"):
                 bad.append(f"nbhd-raise: {where}: gave {res}")
                 continue
